@@ -147,6 +147,9 @@ def rule_R2(ck):
             if err_expected:
                 if not errs:
                     ck.violation(where, f"'{spelling}' with b in {cell} must be reported as an error", construct=f"operator {spelling} error")
+                elif p.value is None or not (isinstance(p.value, int) or (is_sym(p.value) and sym.kind(p.value) in ("int", "bool", "any"))):
+                    ck.violation(where, f"'{spelling}' with b in {cell} is reported, but the expression then has the value {p.value!r}: the statement around it is still assembled (further diagnostics in the same run) "
+                                        "and dies on a value that is not a number", construct=f"operator {spelling} value after the error")
                 continue
             if errs:
                 ck.violation(where, f"'{spelling}' reports {errs} for legal operands (b in {cell})", construct=f"operator {spelling} spurious error")
